@@ -33,6 +33,10 @@ class Infeasible(Exception):
     """The current path condition is known to be contradictory."""
 
 
+class Impure(Exception):
+    """Raised in pure mode when an evaluation would fork, assume or emit an obligation."""
+
+
 class Obligation:
     __slots__ = ('oid', 'kind', 'assumptions', 'goal', 'expect', 'witness', 'where', 'path',
                  'status', 'backend', 'time_s', 'model', 'solver_output', 'meta', 'smt_size')
@@ -72,12 +76,15 @@ class Ctx:
         self.trace = []
         self.obligations = []
         self.notes = []
+        self.pure = 0
 
     # -- nondeterminism -------------------------------------------------------
     def choose(self, n, label=''):
         """Return an index in range(n); all alternatives are explored over re-executions."""
         if n == 1:
             return 0
+        if self.pure:
+            raise Impure()
         if self.pos < len(self.decisions):
             d = self.decisions[self.pos]
         else:
@@ -89,8 +96,9 @@ class Ctx:
         self.trace.append('%s=%d' % (label, d) if label else str(d))
         return d
 
-    def branch(self, cond, label=''):
-        """Fork on a symbolic (or concrete) condition; returns a Python bool for this path."""
+    def branch(self, cond, label='', prune=False):
+        """Fork on a symbolic (or concrete) condition; returns a Python bool for this path.
+        prune=True: drop a side that a quick in-process check shows infeasible under the path condition."""
         if isinstance(cond, bool):
             return cond
         if not z3.is_bool(cond):
@@ -102,17 +110,21 @@ class Ctx:
             return False
         # note: the *unsimplified* condition is recorded (z3's simplifier introduces internal
         # symbols such as seq.nth_i / seq.nth_u that other solvers cannot read)
-        if self.ex.prune:
+        if self.ex.prune or prune:
             t = self._quick(cond)
             f = self._quick(z3.Not(cond))
             if t and not f:
-                self.assumptions.append(cond)
+                if not self.pure:
+                    self.assumptions.append(cond)
                 return True
             if f and not t:
-                self.assumptions.append(z3.Not(cond))
+                if not self.pure:
+                    self.assumptions.append(z3.Not(cond))
                 return False
             if not t and not f:
                 raise Infeasible()
+        if self.pure:
+            raise Impure()
         d = self.choose(2, label)
         if d == 0:
             self.assumptions.append(cond)
@@ -121,15 +133,28 @@ class Ctx:
         return False
 
     def _quick(self, extra):
-        """In-process feasibility probe (small linear queries only); unknown counts as feasible."""
+        """Feasibility probe in a killed-on-deadline solver process (z3's in-process timeout is not
+        reliable); anything but `unsat` counts as feasible."""
+        # paths are re-executed from the start, so the same probes recur: memoise on the (hash-consed) AST ids
+        key = (tuple(a.get_id() for a in self.assumptions), extra.get_id())
+        hit = self.ex.probe_cache.get(key)
+        if hit is not None:
+            return hit
         sol = z3.Solver()
-        sol.set('timeout', 300)
         sol.add(*self.assumptions)
         sol.add(extra)
-        return sol.check() != z3.unsat
+        out, _ = _run([Z3_BIN, '-in', '-smt2', '-T:2'], sol.to_smt2(), 4)
+        self.ex.probe_calls += 1
+        res = _verdict(out) != 'unsat'
+        self.ex.probe_cache[key] = res
+        self.ex.probe_keep.append((self.assumptions[:], extra))     # keep the ASTs alive so ids stay unique
+        return res
+
 
     # -- logic ----------------------------------------------------------------
     def assume(self, f):
+        if self.pure:
+            raise Impure()
         if isinstance(f, bool):
             if not f:
                 raise Infeasible()
@@ -137,6 +162,8 @@ class Ctx:
         self.assumptions.append(f)
 
     def check(self, oid, goal, kind='auxiliary', witness=None, where='', meta=None):
+        if self.pure:
+            raise Impure()
         if isinstance(goal, bool):
             goal = z3.BoolVal(goal)
         ob = Obligation(oid, kind, self.assumptions, goal, 'unsat', witness, where,
@@ -151,6 +178,8 @@ class Ctx:
         return ob
 
     def fresh(self, name, sort):
+        if self.pure:
+            raise Impure()      # fresh symbols inside a speculative evaluation would shift later names
         return self.ex.fresh(name, sort)
 
     def note(self, s):
@@ -165,6 +194,9 @@ class Explorer:
         self.max_paths = max_paths
         self.counter = itertools.count()
         self.paths = 0
+        self.probe_calls = 0
+        self.probe_cache = {}
+        self.probe_keep = []
         self.infeasible = 0
         self.obligations = []
         self.unsupported = []
